@@ -37,6 +37,23 @@ func VerifC01() {
 		prf[n-1] = prf[0]
 	}
 	inv := verifInvocation(invIss, invSub, invAud, command.Top(), nil, prf, nil)
+	// history: the same token may have been checked before, against another
+	// loader (everything loadable / nothing loadable); the verdict of this
+	// check must only depend on the loader it is given
+	switch vChoose("checked_before", 3) {
+	case 1:
+		all := ch.loader()
+		for i := range all.ok {
+			all.ok[i] = true
+		}
+		_ = inv.ExecutionAllowed(all)
+	case 2:
+		none := ch.loader()
+		for i := range none.ok {
+			none.ok[i] = false
+		}
+		_ = inv.ExecutionAllowed(none)
+	}
 	err := inv.ExecutionAllowed(ch.loader())
 
 	// effective links as seen by the validator (after aliasing)
